@@ -48,6 +48,11 @@ def gen_case(rng, tier, idx):
         cfg["S%d" % i] = {"class": "Market", "tickSize": tick, "marketPrice": rng.choice([200, 500]) * tick,
                           "outstandingShares": 1000}
         cfg["simulation"]["markets"].append("S%d" % i)
+    if n >= 2 and rng.random() < 0.25:
+        # an index market that can itself be a halt target
+        cfg["IDX"] = {"class": "IndexMarket", "tickSize": 0.5, "markets": ["S0", "S1"], "outstandingShares": 1000,
+                      "marketPrice": (cfg["S0"]["marketPrice"] + cfg["S1"]["marketPrice"]) / 2}
+        cfg["simulation"]["markets"].append("IDX")
     mk = list(cfg["simulation"]["markets"])
     rules = []
     style = rng.choice(["single", "single", "multi", "per-market"])
